@@ -1,5 +1,6 @@
 import PyGam.Proofs.Links
 import PyGam.Proofs.XR
+import PyGam.Gen.Tables
 /-!
 # C07 — link functions are monotone bijections with the stated inverse and derivative;
 # targets outside the link's domain are rejected
@@ -299,5 +300,16 @@ example : checkY (α := Rat) identity 1 [fin 1, posInf] = Verdict.reject := by
 example : getLinkDomain (α := Rat) logit 5 = some (fin 0, fin 1) := by
   decide +kernel
 end nonvacuity
+
+/-! ### tie to the source by translation -/
+
+/-- the link registry of the source is the one modelled by `LinkKind` -/
+theorem gen_link_names :
+    ∀ names, Gen.linkNames = some names →
+      (∀ k ∈ LinkKind.all, k.name ∈ names) ∧ (∀ s ∈ names, (LinkKind.ofName? s).isSome) := by
+  intro names h
+  have h2 : Gen.linkNames = some ["identity", "inv_squared", "inverse", "log", "logit"] := rfl
+  rw [h2] at h; cases h
+  decide
 
 end PyGam.C07
